@@ -23,7 +23,8 @@ int ref_synth(const char*, unsigned, const unsigned char*, size_t, char**, size_
 int cur_roundtrip(const char*, size_t, char**, size_t*);
 void cur_set_force(int, unsigned long long);
 void ref_set_force(int, unsigned long long);
-void cur_sweep(int, int, unsigned, unsigned, unsigned, void (*)(void*, const unsigned char*, size_t), void*, unsigned long long*, unsigned long long*);
+void cur_sweep(int, int, unsigned, unsigned, unsigned, void (*)(void*, const unsigned char*, size_t), void (*)(void*, const unsigned char*, size_t), void*, unsigned long long*,
+			   unsigned long long*);
 int ref_roundtrip(const char*, size_t, char**, size_t*);
 }
 
@@ -249,6 +250,26 @@ void deterministic(Run& run, const std::function<void(const std::vector<uint8_t>
 				tape.resize(4 + (patterns[p] ? 600 : 0), patterns[p]);
 				feed(tape);
 			}
+	// forced-read sweep over the CURRENT build's reading code (tapes that reach read sites the pattern tapes do not)
+	const bool th = run.args.tier == "thorough";
+	unsigned long long tried = 0, novel = 0;
+	struct Ctx {
+		const std::function<void(const std::vector<uint8_t>&)>* feed;
+		Run* run;
+	} ctx{&feed, &run};
+	run.feedAll = true;
+	cur_sweep(
+		run.args.shard, run.args.nshards, th ? 24 : 10, th ? 32 : 24, static_cast<unsigned>(np),
+		[](void* c, const unsigned char* p, size_t n) { (*static_cast<Ctx*>(c)->feed)(std::vector<uint8_t>(p, p + n)); },
+		[](void* c, const unsigned char* p, size_t n) {
+			auto r = static_cast<Ctx*>(c)->run;
+			if (r->noteCurrent)
+				r->noteCurrent(p, n);
+		},
+		&ctx, &tried, &novel);
+	run.feedAll = false;
+	run.cls("sweep:forced-reads-tried", tried);
+	run.cls("sweep:tapes-reaching-new-read-sites", novel);
 }
 
 } // namespace
